@@ -133,6 +133,7 @@ def draw_case(case, ch: Choices):
                     s["fault"] = None
     cfg["lat_profile"] = ch.draw("cfg.latp", 3)
     cfg["preempt_den"] = ch.pick("cfg.pden", [1, 1, 3, 9])
+    cfg["debug_logging"] = ch.chance("cfg.debug_logging", 1, 5)
     return cfg
 
 
@@ -143,7 +144,8 @@ def sched_knobs(cfg):
     prof = LAT[cfg["lat_profile"]]
     return {"lat": lambda ch, label: prof[ch.draw("net." + label, len(prof))],
             "start": lambda ch, ci: [0.0, 0.0, 0.5, 5.0][ch.draw("sched.start", 4)],
-            "preempt_den": cfg["preempt_den"], "budget": 7200.0, "shared_headers": cfg.get("shared_headers", False)}
+            "preempt_den": cfg["preempt_den"], "budget": 7200.0, "shared_headers": cfg.get("shared_headers", False),
+            "debug_logging": cfg.get("debug_logging", False)}
 
 
 def _nonce_faults(callers):
